@@ -217,7 +217,11 @@ M=[
                             Some(parent) if parent.parent().is_some() && path.extension().is_some() => vec![&path, parent],
                             Some(_) => vec![&*path],"""),
  ("c15_reloader_busy_waits","C15","src/hot_reloading/mod.rs",
-  """        let ready = select.ready();
+  """        let ready = if unknown.is_empty() {
+            select.ready()
+        } else {
+            0
+        };
 """,
   """        let ready = match select.try_ready() {
             Ok(r) => r,
